@@ -200,7 +200,8 @@ readArray:
 				return nil, errors.New("corrupt input: expected float, but no more values")
 			}
 			val := math.Float64frombits(a.tape.Tape[a.off])
-			if val > math.MaxInt64 {
+			// float64(math.MaxInt64) is 2^63, which does not fit.
+			if val >= math.MaxInt64 {
 				return nil, errors.New("float value overflows int64")
 			}
 			if val < math.MinInt64 {
@@ -251,7 +252,8 @@ readArray:
 				return nil, errors.New("corrupt input: expected float, but no more values")
 			}
 			val := math.Float64frombits(a.tape.Tape[a.off])
-			if val > math.MaxInt64 {
+			// float64(math.MaxUint64) is 2^64, which does not fit.
+			if val >= math.MaxUint64 {
 				return nil, errors.New("float value overflows uint64")
 			}
 			if val < 0 {
